@@ -260,6 +260,10 @@ def jobs(tier):
             inc=0.05, limit_hi=40.0, _cost=200)
     add("greedy[finished_session,edf]", stations=[(c, 208, 0), ("CC", 208, 0)], rows=[(1, 1)], sessions=SESS2, algo="greedy", sort="edf", estimator=None, uninterrupted=True, finished=(1,), limit_hi=40.0)
     add("rr[finished_session,fcfs]", stations=[(c, 208, 0), ("AV5", 208, 0)], rows=[(1, 1)], sessions=SESS2, algo="rr", sort="fcfs", estimator="custom", uninterrupted=False, finished=(0,), limit_hi=40.0, inc=0.03)
+    # constraint rows with coefficients of magnitude > 1 (turns ratios, doubled feeders), partial occupancy
+    add("greedy[coefficients>1,edf]", stations=[(c1, 208, 0), ("CC", 208, 0), ("AV5", 208, 0)], rows=[(1, -2, 1), (2, 1, 0)], sessions=SESS3[:2], algo="greedy", sort="edf", estimator=None,
+        uninterrupted=True, limit_hi=60.0)
+    add("rr[coefficients>1,fcfs]", stations=[("AV5", 208, 30), ("CC", 208, 150)], rows=[(1, -2), (0.5, 2)], sessions=SESS2, algo="rr", sort="fcfs", estimator=None, uninterrupted=False, limit_hi=60.0)
     # unequal continuous maxima, the first station vacated / its session finished: list position != station index
     add("greedy[unequal_maxima,first_vacated,lcfs]", stations=[("CC", 208, 0), ("C0.08", 208, 0), ("C0.04", 208, 0)], rows=[(1, 1, 1)], sessions=[(0, 0, 9, 7), (1, 1, 6, 8), (2, 0, 12, 5)],
         algo="greedy", sort="lcfs", estimator=None, uninterrupted=False, vacate=(0,), limit_hi=60.0)
